@@ -68,6 +68,33 @@ func TestExh_C07(t *testing.T) {
 		c.Plugins[1].Fault = Fault{Kind: "dying", K: k}
 		run(c)
 	}
+	// every form of a deliberately returned handler error, for every request kind: it must veto
+	// this request and the next one
+	type form struct {
+		form, sentinel string
+		code           int
+	}
+	forms := []form{{form: "plain"}}
+	for code := 1; code <= 16; code++ {
+		forms = append(forms, form{form: "status", code: code})
+	}
+	for _, sn := range sentinelNames {
+		forms = append(forms, form{form: "wrap", sentinel: sn}, form{form: "bare", sentinel: sn})
+	}
+	nForms := 0
+	for _, q := range reqs {
+		for i, fm := range forms {
+			c := mk(q.req, q.event, "", 0, false)
+			text := "c07 veto by plugin 20"
+			if x := trickyTexts[(i+nForms)%len(trickyTexts)]; x != "" {
+				text = x + ": " + text
+			}
+			c.Plugins[1].Fault = Fault{Kind: "error", ErrText: text, ErrForm: fm.form, ErrCode: fm.code, ErrSentinel: fm.sentinel, Again: true}
+			run(c)
+			nForms++
+		}
+	}
+	r.SetExtra("sweep_error_forms", len(forms))
 	r.SetExtra("sweep_cases", n)
 	r.SetExtra("sweep_offsets_small", small)
 }
